@@ -70,7 +70,11 @@ pub enum SnapshotUrgency {
 impl SnapshotUrgency {
     /// Calculate the urgency for a snapshot based on its age in days
     fn for_days(config: &ServerConfig, days: i64) -> Self {
-        if days >= config.snapshot_days * 3 / 2 {
+        // 1.5 times the target, computed so that it cannot overflow for large targets
+        let high = config
+            .snapshot_days
+            .saturating_add(config.snapshot_days / 2);
+        if days >= high {
             SnapshotUrgency::High
         } else if days >= config.snapshot_days {
             SnapshotUrgency::Low
@@ -81,7 +85,11 @@ impl SnapshotUrgency {
 
     /// Calculate the urgency for a snapshot based on its age in versions
     fn for_versions_since(config: &ServerConfig, versions_since: u32) -> Self {
-        if versions_since >= config.snapshot_versions * 3 / 2 {
+        // 1.5 times the target, computed so that it cannot overflow for large targets
+        let high = config
+            .snapshot_versions
+            .saturating_add(config.snapshot_versions / 2);
+        if versions_since >= high {
             SnapshotUrgency::High
         } else if versions_since >= config.snapshot_versions {
             SnapshotUrgency::Low
